@@ -793,6 +793,12 @@ func (fv *FV) libMethod(st *State, call *ast.CallExpr, fn *types.Func, recvExpr 
 				v = fv.convertTo(st, v, types.NewInterfaceType(nil, nil))
 			}
 			fv.locSet(st, l, v)
+			if fv.w.ownership[l.key] && fv.pure == 0 {
+				// ownership token: storing false releases the queue
+				ow := fv.ghostGet(st, "owner")
+				st.heap[ghostKey("owner")] = fv.name("ghost_owner", Val{T: ite(v.T, ow.T, "0"), S: "Int", Go: types.Typ[types.Int]})
+				fv.writtenHeap[ghostKey("owner")] = true
+			}
 			return nil, true
 		case "Swap":
 			v := fv.eval(st, call.Args[0])
@@ -803,6 +809,13 @@ func (fv *FV) libMethod(st *State, call *ast.CallExpr, fn *types.Func, recvExpr 
 			n := fv.eval(st, call.Args[1])
 			eq := fmt.Sprintf("(= %s %s)", cur.T, o.T)
 			fv.locSet(st, l, Val{T: ite(eq, n.T, cur.T), S: cur.S})
+			if fv.w.ownership[l.key] && fv.pure == 0 && cur.S == "Bool" {
+				// ownership token: a successful CAS false->true makes this goroutine the owner
+				ow := fv.ghostGet(st, "owner")
+				won := fmt.Sprintf("(and %s (not %s) %s)", eq, o.T, n.T)
+				st.heap[ghostKey("owner")] = fv.name("ghost_owner", Val{T: ite(won, "1", ow.T), S: "Int", Go: types.Typ[types.Int]})
+				fv.writtenHeap[ghostKey("owner")] = true
+			}
 			return []Val{{T: eq, S: "Bool", Go: types.Typ[types.Bool]}}, true
 		case "Add":
 			d := fv.eval(st, call.Args[0])
